@@ -1,7 +1,7 @@
 (* Properties/C11.v — Proof encoding round-trips, has shape-determined size, rejects invalid encodings.
    Element codecs (arkworks' validated compressed mode) are abstract fixed-width codecs with the stated
    hypotheses; their concrete behaviour is measured by K7. *)
-Require Import BP.Proofs.CodecLemmas BP.Proofs.CodecFast.
+Require Import BP.Proofs.CodecLemmas BP.Proofs.CodecFast BP.Proofs.ScalarCodec.
 
 Section C11.
   Context {K : FieldOps} {MO : ModOps K}.
@@ -61,3 +61,24 @@ Print Assumptions C11_length.
 Print Assumptions C11_strict_prefix_rejected.
 Print Assumptions C11_bad_element_rejected.
 Print Assumptions C11_executed_reader_is_model.
+
+(* The concrete scalar codec executed by Run/Codec.v (SS little-endian bytes, canonical iff below the modulus r,
+   ark-ff's compressed Fp codec) meets the section hypotheses above (width, decode-after-encode), is canonical
+   (what decodes re-encodes to the same bytes, so two byte strings never give one scalar) and rejects every
+   value not below the modulus. *)
+Theorem C11_scalar_codec :
+  forall (SS : nat) (r : Z), (0 < r <= 256 ^ Z.of_nat SS)%Z ->
+    (forall x, (0 <= x < r)%Z ->
+       length (enc_sc_le SS x) = SS /\ is_bytes (enc_sc_le SS x) /\ dec_sc_le r (enc_sc_le SS x) = Some x)
+    /\ (forall c x, is_bytes c -> length c = SS -> dec_sc_le r c = Some x -> (0 <= x < r)%Z /\ enc_sc_le SS x = c)
+    /\ (forall c, (r <= le_val c)%Z -> dec_sc_le r c = None)
+    /\ (forall c c' x, is_bytes c -> is_bytes c' -> length c = SS -> length c' = SS ->
+          dec_sc_le r c = Some x -> dec_sc_le r c' = Some x -> c = c').
+Proof.
+  intros SS r Hr. split; [|split; [|split]].
+  - intros x Hx. apply (scalar_codec_roundtrip SS r Hr x Hx).
+  - intros c x H1 H2 H3. eapply scalar_codec_canonical; eassumption.
+  - intros c H. eapply scalar_codec_rejects_noncanonical; eassumption.
+  - intros c c' x H1 H2 H3 H4 H5 H6. eapply scalar_codec_injective; eassumption.
+Qed.
+Print Assumptions C11_scalar_codec.
